@@ -368,10 +368,10 @@ def main():
             rp = json.load(f)
         res = par.run_jobs(target, [{'seed': 0, 'replay': rp['replay']}], 1)
     else:
-        total = int((40000 if check.thorough else 1600) * check.scale)
+        total = int((40000 if check.thorough else 4800) * check.scale)
         nj = check.jobs * (4 if check.thorough else 1)
         jobs = [{'seed': check.seed * 1000003 + i, 'n': max(1, total // nj), 'thorough': check.thorough,
-                 'n_stream': (20000 if check.thorough else 1600) // nj,
+                 'n_stream': (20000 if check.thorough else 4800) // nj,
                  'exhaustive_limit': 400 if check.thorough else 160} for i in range(nj)]
         res = par.run_jobs(target, jobs, check.jobs, timeout=7200 if check.thorough else 900)
     for r in res:
